@@ -675,6 +675,9 @@ class Normaliser(object):
             h = self.helpers[(mn, cls.name, f.attr)]
             if f.value.id != 'self' and not (h.static and f.value.id == cls.name):
                 return None
+        elif isinstance(f, ast.Attribute) and isinstance(f.value, ast.Name) and f.value.id == 'self' and cls is not None and \
+                not any(isinstance(m_, ast.FunctionDef) and m_.name == f.attr for m_ in cls.body):
+            h = self._inherited_helper(mn, cls, f.attr)
         elif isinstance(f, ast.Name) and (mn, None, f.id) in self.helpers:
             h = self.helpers[(mn, None, f.id)]
         elif isinstance(f, ast.Name):
@@ -746,6 +749,42 @@ class Normaliser(object):
         here, there = self._module_bindings(mn), self._module_bindings(b[1])
         for n in ast.walk(h.fn):
             if isinstance(n, ast.Name) and isinstance(n.ctx, ast.Load) and n.id not in local and not hasattr(_bi, n.id):
+                if n.id not in there or here.get(n.id) != there[n.id]:
+                    return None
+        return h
+
+    def _inherited_helper(self, mn, cls, name):
+        """a new helper method pulled up into a base class of the package (possibly in another module): usable from a subclass when no
+        class of the package defines a method of that name besides that base, the method is a plain instance method, and every global name
+        its body reads denotes the same object in the calling module"""
+        owners = [(m2, c2) for m2, t2 in self.trees.items() for c2 in t2.body if isinstance(c2, ast.ClassDef) and
+                  any(isinstance(m_, ast.FunctionDef) and m_.name == name for m_ in c2.body)]
+        if len(owners) != 1:
+            return None
+        m2, base = owners[0]
+        # the base must be reachable from cls through base-class names of the package
+        seen, todo, found = set(), [cls], False
+        while todo:
+            c_ = todo.pop()
+            for b_ in c_.bases:
+                bn = b_.id if isinstance(b_, ast.Name) else b_.attr if isinstance(b_, ast.Attribute) else None
+                if bn == base.name:
+                    found = True
+                for t2 in self.trees.values():
+                    for c2 in t2.body:
+                        if isinstance(c2, ast.ClassDef) and c2.name == bn and bn not in seen:
+                            seen.add(bn)
+                            todo.append(c2)
+        h = self.helpers.get((m2, base.name, name))
+        if not found or h is None or h.static:
+            return None
+        import builtins as _bi
+        local = set(h.params) | h.stored | h.nested_bound | {'self'}
+        here, there = self._module_bindings(mn), self._module_bindings(m2)
+        for n in ast.walk(h.fn):
+            if isinstance(n, ast.Name) and isinstance(n.ctx, ast.Load) and n.id not in local and not hasattr(_bi, n.id):
+                if n.id == base.name and here.get(n.id) is not None and here.get(n.id)[0] == 'obj' and here.get(n.id)[1:] == (m2, base.name):
+                    continue        # the base class itself, imported by the calling module
                 if n.id not in there or here.get(n.id) != there[n.id]:
                     return None
         return h
@@ -2129,6 +2168,21 @@ class Normaliser(object):
                     i = 0
                     while i < len(b):
                         s = b[i]
+                        # the guard's test kept in an explaining variable read by the guard alone: `x = c; if x: break` is `if c: break`
+                        if isinstance(s, ast.While) and isinstance(s.test, ast.Constant) and s.test.value is True and len(s.body) >= 2 and \
+                                isinstance(s.body[0], ast.Assign) and len(s.body[0].targets) == 1 and isinstance(s.body[0].targets[0], ast.Name) and \
+                                isinstance(s.body[1], ast.If):
+                            x_ = s.body[0].targets[0].id
+                            tst = s.body[1].test
+                            inner = tst.operand if isinstance(tst, ast.UnaryOp) and isinstance(tst.op, ast.Not) else tst
+                            fn_ = next((f_ for f_ in ast.walk(t) if isinstance(f_, ast.FunctionDef) and any(y is s for y in ast.walk(f_))), None)
+                            if isinstance(inner, ast.Name) and inner.id == x_ and fn_ is not None and \
+                                    sum(1 for y in ast.walk(fn_) if isinstance(y, ast.Name) and y.id == x_) == 2:
+                                if inner is tst:
+                                    s.body[1].test = s.body[0].value
+                                else:
+                                    tst.operand = s.body[0].value
+                                del s.body[0]
                         if isinstance(s, ast.While) and isinstance(s.test, ast.Constant) and s.test.value is True and not s.orelse and s.body and \
                                 isinstance(s.body[0], ast.If) and not s.body[0].orelse and s.body[0].body and isinstance(s.body[0].body[-1], ast.Break):
                             g = s.body[0]
